@@ -79,8 +79,8 @@ impl Scenario for ShutdownScn {
 
     fn budget(&self, tier: Tier) -> u64 {
         match tier {
-            Tier::Quick => 4_000,
-            Tier::Thorough => 300_000,
+            Tier::Quick => 60_000,
+            Tier::Thorough => 6_000_000,
         }
     }
 
